@@ -561,7 +561,13 @@ func (e *Evaluator) evalDotExp(node *ast.DotExp, env *object.Env) object.Object 
 
 	key := node.Key.(*ast.Identifier)
 
-	return e.evalObjectIndexExp(left.(*object.Obj), key.Value, node)
+	obj, isObj := left.(*object.Obj)
+
+	if !isObj {
+		return e.newError(node, fail.ErrPropertyNotFound, key.Value, left.Type())
+	}
+
+	return e.evalObjectIndexExp(obj, key.Value, node)
 }
 
 func (e *Evaluator) evalString(node *ast.StringLiteral, _ *object.Env) object.Object {
